@@ -306,7 +306,7 @@ def run(ctx):
                 break
         iso.close()
     # (3) identifiers of written images
-    sysprops.run_oracle(ctx, 'C13', sysprops.histories(ctx, 80 if quick else 1500, [], dict(allow_refusals=True, refusal_bias=0.2),
+    sysprops.run_oracle(ctx, 'C13', sysprops.histories(ctx, 80 if quick else 1500, ['reloc_same_names', 'deep_tree'], dict(allow_refusals=True, refusal_bias=0.2),
                                                        nops=(5, 30)), image_names_oracle, need_reopen=False, max_shrink=3,
                         fail_is_violation=False)
     ctx.cov['rule'] = ('checker grid: all byte strings up to length 3 (thorough: 4) over a 12-symbol alphabet, version strings over a 13-symbol alphabet, '
